@@ -9,6 +9,10 @@ CLAIMED = {
    text="Machine-checked Lean 4 theorems (any ordered field, any dimension, any mask): lattice-only shifts, half-cell fractional coordinates, lattice-shift invariance away from ties, idempotence, orthogonal-cell shortest image; the model is tied to pbc.py by a differential correspondence in exact rational arithmetic under a margin guard plus exact monitors of the proved statements on the real output.",
    note="np.linalg.inv (two-sided inverse) and np.rint (nearest, half-even at ±1/2, odd) are contracts; float64≈ℝ validated by correspondence, not proved; model hand-written (Pms/Model/Pbc.lean).",
    technique="Lean 4 proof over ordered fields + differential correspondence (exact ℚ driver)", ref="§6 C02"),
+ "C12": dict(
+   text="Lean 4 theorems (Mathlib HasDerivAt over ℝ) that the s1/s2 formulas REGENERATED from hessians.py on every run are d/dr and d²/dr² of the documented Lennard-Jones, inverse-power-law (real exponent) and harmonic/Hertz (real exponent inside contact, integer exponent everywhere) potentials for all parameters; cutoff term and selector table decided; translation validated numerically against the real methods; failing-input search against 40-digit derivatives.",
+   note="translator expression printer trusted but numerically validated each run; float64 pow/div ≈ ℝ is a contract; documented potentials transcribed by hand from docs/hessian.md.",
+   technique="Lean 4 proof (HasDerivAt identities) over source-regenerated terms + translation validation", ref="§6 C12"),
 }
 NOT_BUILT = {}
 
